@@ -213,7 +213,7 @@ fn check_unique(max_len: usize, ctx: &mut Ctx) {
 
 fn main() {
     let run = Run::from_args("C14");
-    let max_len = run.pick(7, 12);
+    let max_len = run.pick(7, 14);
     let mut ctx = Ctx::new();
     if let Some(path) = &run.replay {
         let stored = load_replay(path).unwrap_or_else(|e| {
